@@ -222,9 +222,13 @@ def run(chk):
     vlib.tlc_must_hold(r, "QueryLifecycle sync Q=2")
     chk.add_tlc("MC_QueryLifecycle_sync", r, "Q=2 MAXRUN=1 CAP=10: all safety invariants + deadlock freedom")
     if not quick:
-        r3 = vlib.run_tlc("MC_QueryLifecycle", "MC_QueryLifecycle_sync3.cfg", timeout=2400, heap="12g")
-        vlib.tlc_must_hold(r3, "QueryLifecycle sync Q=3")
-        chk.add_tlc("MC_QueryLifecycle_sync3", r3, "Q=3 MAXRUN=2 with symmetry")
+        # Q=3 with cancels AND timers does not finish (>280 M states in 40 min, measured); the two halves do
+        for cfg, what in (("MC_QueryLifecycle_sync3_cancel.cfg", "Q=3 MAXRUN=2 CANCELS=1 no timers, symmetry (1.3 M distinct)"),
+                          ("MC_QueryLifecycle_sync3_timer.cfg", "Q=3 MAXRUN=2 timers, no client cancel, symmetry (2.7 M distinct)"),
+                          ("MC_QueryLifecycle_sync2c2.cfg", "Q=2 MAXRUN=2 CANCELS=2 timers (37 M distinct)")):
+            r3 = vlib.run_tlc("MC_QueryLifecycle", cfg, timeout=2400, heap="12g")
+            vlib.tlc_must_hold(r3, "QueryLifecycle " + cfg)
+            chk.add_tlc(cfg[:-4], r3, what)
     rc = vlib.run_tlc("MC_QueryLifecycle", "MC_QueryLifecycle_cancelwaiting.cfg", timeout=600)
     chk.cov["model_candidates"] = {"CancelTakesEffect": "violated" if "CancelTakesEffect" in rc.violated else "holds"}
     ra = vlib.run_tlc("MC_QueryLifecycle", "MC_QueryLifecycle_async.cfg", timeout=900)
